@@ -67,10 +67,50 @@ func layoutTerm(l []fld) string {
 	return "[" + strings.Join(parts, "; ") + "]"
 }
 
+// errorReaches: a read whose error is bound by `if err := READ; ...` (a NEW variable, local to the if) must hand that
+// error to the caller inside the if; otherwise the function-level error stays nil and a failed read goes unreported.
+func (x *xl) errorReaches(stmts []ast.Stmt, item string) bool {
+	ok := true
+	for _, st := range stmts {
+		ast.Inspect(st, func(n ast.Node) bool {
+			is, isIf := n.(*ast.IfStmt)
+			if !isIf || is.Init == nil {
+				return true
+			}
+			as, isAs := is.Init.(*ast.AssignStmt)
+			if !isAs || as.Tok != token.DEFINE || len(as.Rhs) != 1 {
+				return true
+			}
+			rhs := types.ExprString(as.Rhs[0])
+			if !strings.Contains(rhs, "binary.Read(") && !strings.Contains(rhs, ".fromBinary(") {
+				return true
+			}
+			returns := false
+			if types.ExprString(is.Cond) == "err != nil" {
+				for _, b := range is.Body.List {
+					if r, isRet := b.(*ast.ReturnStmt); isRet {
+						for _, res := range r.Results {
+							if strings.Contains(types.ExprString(res), "err") {
+								returns = true
+							}
+						}
+					}
+				}
+			}
+			if !returns {
+				x.fail(item, "the error of %s is bound to a variable local to the if and does not reach the caller", rhs)
+				ok = false
+			}
+			return true
+		})
+	}
+	return ok
+}
+
 // readDest finds the destination of the first binary.Read / fromBinary call in a statement list.
 func (x *xl) readDest(stmts []ast.Stmt, item string) (types.Type, bool) {
 	var found types.Type
-	ok := true
+	ok := x.errorReaches(stmts, item)
 	for _, st := range stmts {
 		ast.Inspect(st, func(n ast.Node) bool {
 			if found != nil {
